@@ -2,5 +2,5 @@ CONSTANTS KindDesc <- Desc_dyn_fixdim Shapes <- ShapesThorough MaxHist = 5
 SPECIFICATION Spec
 VIEW View
 INVARIANT Inv
-PROPERTIES RefusedChangesNothing WriteTouchesOne
+PROPERTIES RefusedChangesNothing WriteTouchesOne CastChangesNothing
 CHECK_DEADLOCK FALSE
